@@ -296,6 +296,16 @@ Theorem C15_collapse_midpoint_boundary_edge_topology `{Sig} : forall E n ks l a 
 Proof. exact collapse_to_midpoint_boundary. Qed.
 Print Assumptions C15_collapse_midpoint_boundary_edge_topology.
 
+Theorem C15_collapse_midpoint_boundary_edge_keeps_wf2 `{Sig} : forall E n ks l a b b0r b1r c w cnt vid w' cnt',
+  let A2 := beta w 2 a in let B2 := beta w 2 b in
+  wf2 n w -> l < n ->
+  NoDup [l; a; b; A2; B2] -> ~ In 0 [l; a; b; A2; B2] ->
+  beta w 1 l = a -> beta w 1 a = b -> beta w 1 b = l -> beta w 2 l = 0 ->
+  run E (collapse_edge_to_midpoint n ks b l a b0r 0 b1r) c w cnt = (Done vid, w', cnt') ->
+  wf2 n w'.
+Proof. exact collapse_to_midpoint_boundary_wf. Qed.
+Print Assumptions C15_collapse_midpoint_boundary_edge_keeps_wf2.
+
 (** Non-vacuity: the unit square split in two triangles 1 -> 2 -> 3 and 4 -> 5 -> 6 glued along 3 | 4 (the mesh of the
     repaired defect) meets the premises of the boundary theorems with (pe, e, ne) = (3, 1, 2) -- both other sides of the
     first triangle are on the boundary, pe is glued to 4 -- and those of the interior theorems with (pe, e, ne) = (1, 2, 3):
